@@ -4485,6 +4485,9 @@ impl Compiler {
             jumps.push(check_failed_jump);
         }
 
+        let stack_count = self.stack_count();
+        let mut pending_assignments = SmallVec::<[(u8, u8); 4]>::new();
+
         for entry in entries {
             let entry_node = ctx.node(*entry);
 
@@ -4512,16 +4515,14 @@ impl Compiler {
                 }
             };
 
-            // With a type hint, the value is checked in a temporary register before it's
-            // assigned, so that a failed check leaves the variable untouched.
+            // The value is unpacked into a temporary register, and only assigned once every
+            // entry of the pattern has matched: a pattern that fails on a later entry (or on a
+            // type check) leaves all of its variables untouched.
             let id_register = match maybe_id {
-                Some(id) if maybe_type.is_some() => Some(self.assign_local_register(id)?),
-                _ => None,
+                Some(id) => Some(self.assign_local_register(id)?),
+                None => None,
             };
-            let element_register = match maybe_id {
-                Some(id) if maybe_type.is_none() => self.assign_local_register(id),
-                _ => self.push_register(),
-            }?;
+            let element_register = self.push_register()?;
 
             // Attempt to access the requested key
             let access_failed_jump = match key_node {
@@ -4550,13 +4551,15 @@ impl Compiler {
             }
 
             if let Some(id_register) = id_register {
-                self.push_op(Op::Copy, &[id_register, element_register]);
-            }
-
-            if maybe_id.is_none() || id_register.is_some() {
-                self.pop_register()?; // element_register
+                pending_assignments.push((id_register, element_register));
             }
         }
+
+        // Every entry matched: commit the unpacked values to the pattern's variables
+        for (id_register, element_register) in pending_assignments {
+            self.push_op(Op::Copy, &[id_register, element_register]);
+        }
+        self.truncate_register_stack(stack_count)?;
 
         Ok(())
     }
